@@ -937,7 +937,7 @@ var FieldWriteSet = `
 		{{- if Features.WithFieldMask}}
 		if !{{.FieldMask}}.All() {
 			l := len({{.Target}})
-			for i:=0; i < l; i++ {
+			for i, n := 0, l; i < n; i++ { // n: the loop bound must not shrink with the count
 				if _, ex := {{.FieldMask}}.Int(i); !ex {
 					l--
 				}
@@ -1007,7 +1007,7 @@ var FieldWriteList = `
 	{{- if Features.WithFieldMask}}
 	if !{{.FieldMask}}.All() {
 		l := len({{.Target}})
-		for i:=0; i < l; i++ {
+		for i, n := 0, l; i < n; i++ { // n: the loop bound must not shrink with the count
 			if _, ex := {{.FieldMask}}.Int(i); !ex {
 				l--
 			}
